@@ -98,10 +98,11 @@ class AddFieldTransformation(PreprocessingTransformation):
 
     def apply(self, rule: SigmaRule | SigmaCorrelationRule) -> None:
         super().apply(rule)
+        # Build a new list: the present one can be shared with other rules or with a transformation
         if isinstance(self.field, str):
-            rule.fields.append(self.field)
+            rule.fields = rule.fields + [self.field]
         elif isinstance(self.field, list):
-            rule.fields.extend(self.field)
+            rule.fields = rule.fields + self.field
 
 
 @dataclass
@@ -115,17 +116,14 @@ class RemoveFieldTransformation(PreprocessingTransformation):
 
     def apply(self, rule: SigmaRule | SigmaCorrelationRule) -> None:
         super().apply(rule)
-        if isinstance(self.field, str):
+        # Build a new list: the present one can be shared with other rules or with a transformation
+        fields = list(rule.fields)
+        for field in [self.field] if isinstance(self.field, str) else self.field:
             try:
-                rule.fields.remove(self.field)
+                fields.remove(field)
             except ValueError:
                 pass
-        elif isinstance(self.field, list):
-            for field in self.field:
-                try:
-                    rule.fields.remove(field)
-                except ValueError:
-                    pass
+        rule.fields = fields
 
 
 @dataclass
@@ -138,4 +136,4 @@ class SetFieldTransformation(PreprocessingTransformation):
 
     def apply(self, rule: SigmaRule | SigmaCorrelationRule) -> None:
         super().apply(rule)
-        rule.fields = self.fields
+        rule.fields = list(self.fields)  # every rule gets its own list
